@@ -42,7 +42,12 @@ import term_image.utils as U  # noqa: E402
 assert U.__file__.startswith(SRC), U.__file__
 
 TERM = 0
-GRANT_TIMEOUT = 90.0  # never reached in practice; generous because checks run on loaded machines
+# A granted worker parks again within microseconds; the timeout is only reached when the code
+# under test blocks for real (e.g. on a lock that is not one of the traced ones).  Generous
+# because checks run on loaded machines; after a first hang (the check fails anyway: it is
+# reported as an error) the remaining cases of this process use a short one.
+GRANT_TIMEOUT = 15.0
+AFTER_HANG_TIMEOUT = 2.0
 
 
 class Harness:
@@ -183,7 +188,15 @@ class ProcObj:
         self.child = child
 
 
+def hung():
+    global GRANT_TIMEOUT
+    GRANT_TIMEOUT = AFTER_HANG_TIMEOUT
+
+
 def run_schedule(case):
+    global GRANT_TIMEOUT
+    if case.get("grant_timeout"):
+        GRANT_TIMEOUT = min(GRANT_TIMEOUT, float(case["grant_timeout"]))
     h = Harness(case)
     for tid, proc, prog in case["threads"]:
         h.workers[tid] = Worker(h, tid, proc, prog)
@@ -273,7 +286,8 @@ def run_schedule(case):
         w.parked.clear()
         w.go.release()
         if not w.parked.wait(GRANT_TIMEOUT):
-            raise RuntimeError("worker %d did not park again" % tid)
+            hung()
+            raise RuntimeError("worker %d did not park again (blocked outside the traced locks?)" % tid)
         return True
 
     sched = list(case["sched"])
@@ -311,7 +325,7 @@ def run_schedule(case):
     for w in h.workers.values():
         w.go.release()
     for w in h.workers.values():
-        w.thread.join(GRANT_TIMEOUT)
+        w.thread.join(1.0 if error else GRANT_TIMEOUT)
     h.log, h.error = log, error
     return {"log": h.log, "sched": effective, "unfinished": unfinished, "error": h.error,
             "locks_made": len(made), "enabled": enabled}
